@@ -3,5 +3,6 @@ pub mod c02;
 pub mod c03;
 pub mod c04;
 pub mod c05;
+pub mod c06;
 pub mod diff;
 pub mod rel;
